@@ -100,7 +100,7 @@ pub fn id_pool(min: usize, max: usize) -> BoxedStrategy<Vec<IdSpec>> {
             let mut seen = std::collections::HashSet::new();
             let mut fresh = 1_000_000u64;
             for s in v.iter_mut() {
-                while !seen.insert(s.build()) {
+                while !seen.insert(id_key(s.build())) {
                     *s = IdSpec::FromU64(fresh);
                     fresh += 1;
                 }
